@@ -1,4 +1,5 @@
 import Drand.Store.Mem
+import Drand.Store.Hold
 namespace Drand.Driver.StoreD
 open Drand Drand.Store
 
@@ -7,7 +8,7 @@ inductive AnyStore where
   | trimmed (s : TrimmedState)
   | mem (s : MemState)
 
-def storeInit (backend : String) : Option AnyStore :=
+def anyInit (backend : String) : Option AnyStore :=
   if backend = "bolt" then some (.bolt [])
   else if backend = "trimmed" then some (.trimmed ⟨false, []⟩)
   else if backend = "trimmedprev" then some (.trimmed ⟨true, []⟩)
@@ -45,20 +46,27 @@ interleaved with the open cursor. -/
 def cursorSession (st : AnyStore) (toks : List String) : AnyStore × String :=
   match st with
   | .bolt s =>
-    let (_, outs) := toks.foldl (fun (acc : Cursor Beacon × List String) t =>
+    -- `cancel`: the session's context is cancelled; every later move answers the context error without moving
+    let (_, _, outs) := toks.foldl (fun (acc : Cursor Beacon × Bool × List String) t =>
+      let (c, dead, o) := acc
+      if t = "cancel" then (c, true, "ok" :: o) else
       match parseCurOp t with
-      | some op => let (c', r) := Bolt.cursorStep acc.1 op; (c', r.show :: acc.2)
-      | none => (acc.1, "bad-op" :: acc.2)) (⟨s, none⟩, [])
+      | some op => if dead then (c, dead, "cancelled" :: o) else let (c', r) := Bolt.cursorStep c op; (c', dead, r.show :: o)
+      | none => (c, dead, "bad-op" :: o)) (⟨s, none⟩, false, [])
     (st, "|".intercalate outs.reverse)
   | .trimmed s =>
-    let (_, outs) := toks.foldl (fun (acc : Cursor Bytes × List String) t =>
+    let (_, _, outs) := toks.foldl (fun (acc : Cursor Bytes × Bool × List String) t =>
+      let (c, dead, o) := acc
+      if t = "cancel" then (c, true, "ok" :: o) else
       match parseCurOp t with
-      | some op => let (c', r) := Trimmed.cursorStep s.requiresPrevious acc.1 op; (c', r.show :: acc.2)
-      | none => (acc.1, "bad-op" :: acc.2)) (⟨s.kv, none⟩, [])
+      | some op => if dead then (c, dead, "cancelled" :: o) else
+          let (c', r) := Trimmed.cursorStep s.requiresPrevious c op; (c', dead, r.show :: o)
+      | none => (c, dead, "bad-op" :: o)) (⟨s.kv, none⟩, false, [])
     (st, "|".intercalate outs.reverse)
   | .mem s =>
     let (s', _, outs) := toks.foldl (fun (acc : MemState × Nat × List String) t =>
       let (m, pos, o) := acc
+      if t = "cancel" then (m, pos, "ok" :: o) else     -- memdb never looks at the context
       match parseCurOp t with
       | some op => let (p', r) := Mem.cursorStep m pos op; (m, p', r.show :: o)
       | none =>
@@ -74,7 +82,7 @@ def cursorSession (st : AnyStore) (toks : List String) : AnyStore × String :=
         | _ => (m, pos, "bad-op" :: o)) (s, 0, [])
     (.mem s', "|".intercalate outs.reverse)
 
-def storeStep (st : AnyStore) (f : List String) : AnyStore × String :=
+def coreStep (st : AnyStore) (f : List String) : AnyStore × String :=
   match f with
   | ["put", r, s, p] =>
     match parseBeacon r s p with
@@ -105,5 +113,98 @@ def storeStep (st : AnyStore) (f : List String) : AnyStore × String :=
       | .trimmed s => .trimmed ⟨s.requiresPrevious, []⟩
       | .mem s => .mem ⟨s.cap, []⟩, "ok")
   | _ => (st, "bad-op")
+
+/-! ### values held by callers, cancelled contexts, Close, SaveTo -/
+
+def AnyStore.isMem : AnyStore → Bool
+  | .mem _ => true
+  | _ => false
+
+def readAny (st : AnyStore) (rq : ReadReq) : Read :=
+  match st with
+  | .bolt s => boltBackend.read s rq
+  | .trimmed s => trimmedBackend.read s rq
+  | .mem s => memBackend.read s rq
+
+/-- the three back-end models behind one interface -/
+def anyBackend : Backend AnyStore := { put := AnyStore.put, del := AnyStore.del, read := readAny }
+
+structure StoreSt where
+  h : Held AnyStore
+  /-- bolt only: `Close` was called (memdb's `Close` is a no-op) -/
+  closed : Bool := false
+
+def storeInit (backend : String) : Option StoreSt := (anyInit backend).map fun st => { h := ⟨st, []⟩ }
+
+def parseReadReq (f : List String) : Option ReadReq :=
+  match f with
+  | ["get", r] => r.toNat?.map .get
+  | ["last"] => some .last
+  | "cur" :: toks =>
+    let ops := toks.filterMap parseCurOp
+    if ops.length = toks.length ∧ ¬ toks.isEmpty then some (.cursor ops) else none
+  | _ => none
+
+/-- every record of the copy `SaveTo` wrote, read back through a store of the same format opened on the copy -/
+def dumpAny (st : AnyStore) : Option String :=
+  let fmt (l : List Beacon) := s!"n={l.length} " ++ (if l.isEmpty then "-" else "|".intercalate (l.map Beacon.show))
+  match st with
+  | .bolt s => some (fmt (s.map (·.2)))
+  | .trimmed s => some (fmt (s.kv.map fun (k, sg) => ⟨k, sg, []⟩))
+  | .mem _ => none
+
+/-- does this op look at its context before doing anything? (bolt: every method but the trimmed `SaveTo`; memdb: none) -/
+def checksCtx (st : AnyStore) (f : List String) : Bool :=
+  match st, f with
+  | .mem _, _ => false
+  | .trimmed _, ["saveto"] => false
+  | _, _ => true
+
+def plainStep (s : StoreSt) (f : List String) : StoreSt × String :=
+  let st := s.h.store
+  let dead := s.closed && !st.isMem
+  match f with
+  | ["reset"] => let r := coreStep st f; ({ h := ⟨r.1, []⟩, closed := false }, r.2)
+  | ["close"] => ({ s with closed := !st.isMem }, "ok")
+  | "hold" :: k :: rest =>
+    match k.toNat?, parseReadReq rest with
+    | some k, some rq =>
+      if dead then ({ s with h := { s.h with slots := (k, .noBeacon) :: s.h.slots } }, "err:closed")
+      else
+        let out := (coreStep st rest).2
+        ({ s with h := Held.step anyBackend s.h (.hold k rq) }, out)
+    | _, _ => (s, "bad-op")
+  | ["cmp", k] =>
+    match k.toNat? with
+    | some k => (s, match s.h.slot k with | some (.ok b) => "same " ++ b.show | _ => "empty")
+    | none => (s, "bad-op")
+  | ["qput", _when, r, sg, pv, echo] =>
+    match parseBeacon r sg pv with
+    | some b =>
+      let st' := anyBackend.putCtx st b (echo == "ok")
+      let g := if dead then "err:closed" else (readAny st' (.get b.round)).show
+      ({ s with h := { s.h with store := st' } }, s!"{echo} get={g}")
+    | none => (s, "bad-op")
+  | ["saveto"] =>
+    match dumpAny st with
+    | none => (s, "unsupported")
+    | some d => (s, if dead then "err:closed" else d)
+  | _ =>
+    if dead then (s, if (coreStep st f).2 == "bad-op" then "bad-op" else "err:closed")
+    else let r := coreStep st f; ({ s with h := { s.h with store := r.1 } }, r.2)
+
+/-- `cx <op…>`: the op is called with a context that is already cancelled -/
+def storeStep (s : StoreSt) (f : List String) : StoreSt × String :=
+  match f with
+  | "cx" :: op =>
+    match op with
+    | "hold" :: _ => (s, "bad-op")
+    | "cx" :: _ => (s, "bad-op")
+    | "qput" :: _ => (s, "bad-op")
+    | ["cmp", _] => (s, "bad-op")
+    | ["reset"] => (s, "bad-op")
+    | ["close"] => (s, "bad-op")
+    | _ => if checksCtx s.h.store op then (s, if (plainStep s op).2 == "bad-op" then "bad-op" else "cancelled") else plainStep s op
+  | _ => plainStep s f
 
 end Drand.Driver.StoreD
